@@ -48,15 +48,40 @@ def _flat_params(module):
     return [p for p in module.parameters()]
 
 
-def fd_check(loss_fn, y0, params, gen, eps=2.0 ** -13):
+WRT_MODES = ("both", "params", "y0")
+
+
+def fd_check(loss_fn, y0, params, gen, eps=2.0 ** -13, wrt="both"):
     """loss_fn(y0) -> (L, absL) with the module's current parameters; absL = sum |w y|.
+    wrt: differentiate with respect to "both" (y0 and parameters), "params" only (y0 is then a plain tensor that
+    does not require grad, as in ordinary training) or "y0" only (parameters frozen with requires_grad_(False)).
     Returns dict(backprop, fd, tol, err, trunc, round)."""
-    y0 = y0.detach().clone().requires_grad_(True)
-    L, absL = loss_fn(y0)
-    grads = torch.autograd.grad(L, [y0] + params, allow_unused=True)
-    grads = [torch.zeros_like(x) if g is None else g for g, x in zip(grads, [y0] + params)]
-    # random direction, normalised so that the perturbation is O(eps) relative to O(1) quantities
+    y0 = y0.detach().clone()
+    if wrt != "params":
+        y0.requires_grad_(True)
+    frozen = []
+    if wrt == "y0":
+        frozen = [p for p in params if p.requires_grad]
+        for p in frozen:
+            p.requires_grad_(False)
+    try:
+        L, absL = loss_fn(y0)
+        wrt_list = ([y0] if wrt != "params" else []) + (params if wrt != "y0" else [])
+        grads = torch.autograd.grad(L, wrt_list, allow_unused=True)
+    finally:
+        for p in frozen:
+            p.requires_grad_(True)
+    grads = [torch.zeros_like(x) if g is None else g for g, x in zip(grads, wrt_list)]
+    zero_y = [torch.zeros_like(y0)] if wrt == "params" else []
+    zero_p = [torch.zeros_like(p) for p in params] if wrt == "y0" else []
+    grads = zero_y + grads + zero_p                                  # aligned with [y0] + params
+    # random direction in the differentiated variables, normalised to unit length
     dirs = [torch.randn(x.shape, generator=gen, dtype=x.dtype) for x in [y0] + params]
+    if wrt == "params":
+        dirs[0].zero_()
+    if wrt == "y0":
+        for d in dirs[1:]:
+            d.zero_()
     nrm = math.sqrt(sum(float((d ** 2).sum()) for d in dirs))
     dirs = [d / nrm for d in dirs]
     backprop = sum(float((g * d).sum()) for g, d in zip(grads, dirs))
@@ -130,47 +155,7 @@ def weights_for(kind, T, B, d, gen):
     return w
 
 
-# =============================================================================================
-# controller probes (NoGradInCtl on the real code)
-# =============================================================================================
-class CtlProbe:
-    def __init__(self):
-        from torchsde._core import adaptive_stepping
-        self.mod = adaptive_stepping
-        self.orig = (adaptive_stepping.compute_error, adaptive_stepping.update_step_size)
-        self.estimates = []
-        self.breaches = []
-        self.calls = 0
-
-    def __enter__(self):
-        probe = self
-
-        def compute_error(y11, y12, rtol, atol, *a, **k):
-            probe.calls += 1
-            ts_ = [t for t in ((y11,) if torch.is_tensor(y11) else tuple(y11)) + ((y12,) if torch.is_tensor(y12) else tuple(y12))]
-            if torch.is_grad_enabled() and any(t.requires_grad for t in ts_):
-                probe.breaches.append("compute_error ran with autograd enabled on tensors requiring grad")
-            out = probe.orig[0](y11, y12, rtol, atol, *a, **k)
-            if torch.is_tensor(out) and out.requires_grad:
-                probe.breaches.append("compute_error returned a tensor requiring grad")
-            probe.estimates.append(float(out))
-            return out
-
-        def update_step_size(*a, **k):
-            vals = list(a) + list(k.values())
-            if any(torch.is_tensor(v) and v.requires_grad and torch.is_grad_enabled() for v in vals):
-                probe.breaches.append("update_step_size ran with autograd enabled on tensors requiring grad")
-            out = probe.orig[1](*a, **k)
-            if any(torch.is_tensor(v) and v.requires_grad for v in out if v is not None):
-                probe.breaches.append("update_step_size returned a tensor requiring grad")
-            return out
-
-        self.mod.compute_error, self.mod.update_step_size = compute_error, update_step_size
-        return self
-
-    def __exit__(self, *exc):
-        self.mod.compute_error, self.mod.update_step_size = self.orig
-        return False
+CtlProbe = S.CtlProbe
 
 
 # =============================================================================================
@@ -199,40 +184,61 @@ def part1_exact(ctx, res):
         replay = dict(key=key, case=case)
         sde = S.AstSDE(case["sde"], case["th"])
         y0 = torch.tensor([[S.fl(q) for q in case["y0"]]], dtype=S.DT, requires_grad=True)
+        nd = y0.numel()
+
+        def solve(mode):
+            """mode "both": y0 and theta require grad; "params": y0 is a plain tensor (ordinary training);
+            "y0": the parameters are frozen."""
+            sde_m = sde if mode == "both" else S.AstSDE(case["sde"], case["th"])
+            y0_m = y0 if mode == "both" else y0.detach().clone().requires_grad_(mode == "y0")
+            if mode == "y0":
+                sde_m.theta.requires_grad_(False)
+            bm_m, _ = S.scripted_bm(case)
+            ys_m = torchsde.sdeint(sde_m, y0_m, [S.fl(q) for q in case["ts"]], bm=bm_m, method=case["method"],
+                                   dt=S.fl(case["dt"]), options=S.options_for(case))
+            return ys_m, y0_m, sde_m
+
         try:
-            bm, _ = S.scripted_bm(case)
-            ys = torchsde.sdeint(sde, y0, [S.fl(q) for q in case["ts"]], bm=bm, method=case["method"],
-                                 dt=S.fl(case["dt"]), options=S.options_for(case))
+            ys, _, _ = solve("both")
+            others = {mode: solve(mode) for mode in ("params", "y0")}
         except Exception as e:
             ctx.violation(dict(key, what="exception"), f"sdeint raised {type(e).__name__}: {e}", replay=replay)
             continue
         want = torch.tensor(S.fl_nested(p["ys"]), dtype=S.DT).unsqueeze(1)
-        e_fwd = S.rel_err(ys.detach(), want)
+        e_fwd = max(S.rel_err(ys.detach(), want), *(S.rel_err(o[0].detach(), want) for o in others.values()))
         T, d = want.size(0), want.size(2)
         if e_fwd <= FWD_TOL:
             stats["forward_ok"] += 1
             stats["max_fwd_err"] = max(stats["max_fwd_err"], e_fwd)
             for gp in grads[kid]:
                 w = torch.tensor(S.fl_nested(gp["w"]), dtype=S.DT).unsqueeze(1)
-                L = (w * ys).sum()
-                gy, gth = torch.autograd.grad(L, [y0, sde.theta], retain_graph=True, allow_unused=True)
-                gy = torch.zeros_like(y0) if gy is None else gy
-                gth = torch.zeros_like(sde.theta) if gth is None else gth
-                got = torch.cat([gy.reshape(-1), gth.reshape(-1)])
                 exact = torch.tensor([S.fl(q) for q in gp["grad"]], dtype=S.DT)
-                assert len(gp["atoms"]) == got.numel() and gp["atoms"][0] == ["y0", 1]
-                eL = S.rel_err(L.detach(), torch.tensor(S.fl(gp["L"]), dtype=S.DT))
-                eg = S.rel_err(got, exact)
-                stats["grads_compared"] += 1
+                assert len(gp["atoms"]) == nd + sde.theta.numel() and gp["atoms"][0] == ["y0", 1]
+                for mode in WRT_MODES:
+                    ys_m, y0_m, sde_m = (ys, y0, sde) if mode == "both" else others[mode]
+                    L = (w * ys_m).sum()
+                    wrt_list = ([y0_m] if mode != "params" else []) + ([sde_m.theta] if mode != "y0" else [])
+                    if not L.requires_grad:      # weights select outputs that do not depend on the variables
+                        got_list = [torch.zeros_like(x) for x in wrt_list]
+                    else:
+                        got_list = torch.autograd.grad(L, wrt_list, retain_graph=True, allow_unused=True)
+                    got = torch.cat([(torch.zeros_like(x) if g_ is None else g_).reshape(-1)
+                                     for g_, x in zip(got_list, wrt_list)])
+                    sel = slice(None) if mode == "both" else (slice(nd, None) if mode == "params" else slice(0, nd))
+                    ex = exact[sel]
+                    atoms = gp["atoms"][sel]
+                    eL = S.rel_err(L.detach(), torch.tensor(S.fl(gp["L"]), dtype=S.DT))
+                    eg = S.rel_err(got, ex, scale=float(exact.abs().max()))
+                    stats["grads_compared"] += 1
+                    stats["max_grad_err"] = max(stats["max_grad_err"], eg)
+                    if not (eg <= GRAD_TOL and eL <= 1e-12):
+                        bad = int((got - ex).abs().argmax())
+                        ctx.violation(dict(key, wkind=gp["wkind"], wrt=mode, what="exact_gradient"),
+                                      f"backprop gradient (differentiating w.r.t. {mode}) differs from the exact derivative "
+                                      f"of the numerical solution: rel {eg:.3e} (atom {atoms[bad]}: backprop "
+                                      f"{float(got[bad])!r}, exact {float(ex[bad])!r}); forward values agree to {e_fwd:.1e}",
+                                      replay=dict(replay, wkind=gp["wkind"], wrt=mode, w=gp["w"], exact_grad=gp["grad"]))
                 stats["lemma_cases"] += bool(gp["lemma"])
-                stats["max_grad_err"] = max(stats["max_grad_err"], eg)
-                if not (eg <= GRAD_TOL and eL <= 1e-12):
-                    bad = int((got - exact).abs().argmax())
-                    ctx.violation(dict(key, wkind=gp["wkind"], what="exact_gradient"),
-                                  f"backprop gradient differs from the exact derivative of the numerical solution: rel "
-                                  f"{eg:.3e} (atom {gp['atoms'][bad]}: backprop {float(got[bad])!r}, exact "
-                                  f"{float(exact[bad])!r}); forward values agree to {e_fwd:.1e}",
-                                  replay=dict(replay, wkind=gp["wkind"], w=gp["w"], exact_grad=gp["grad"]))
             ctx.case(("exact", kid), trace=True,
                      sample=dict(key=key, ys=ys.detach().squeeze(1).tolist(), tlc_ys=S.fl_nested(p["ys"]),
                                  grad_mixed=[S.fl(q) for q in grads[kid][-1]["grad"]]) if n_case < 2 else None)
@@ -279,7 +285,9 @@ def part2_fd(ctx):
     reps = 1 if quick else 3
     for ci, (me, cal, nt, gf) in enumerate(COMBOS * reps):
         rep = ci // len(COMBOS)
-        for li, lay in enumerate(fixed_layouts + ADAPTIVE):
+        jobs = [(li, lay, wrt) for li, lay in enumerate(fixed_layouts + ADAPTIVE)
+                for wrt in (WRT_MODES if not lay.get("adaptive") else (WRT_MODES[(ci + li) % 3],))]
+        for li, lay, wrt in jobs:
             sizes = {"diagonal": [(3, 3), (1, 1)], "scalar": [(3, 1), (1, 1)], "additive": [(3, 2), (2, 3)],
                      "general": [(3, 2), (2, 3)]}
             d, m = sizes[nt][li % 2]
@@ -287,7 +295,7 @@ def part2_fd(ctx):
             adaptive = bool(lay.get("adaptive"))
             if adaptive and quick and gf:
                 continue
-            key = dict(method=me, cal=cal, nt=nt, grad_free=gf, layout=li, adaptive=adaptive, rep=rep)
+            key = dict(method=me, cal=cal, nt=nt, grad_free=gf, layout=li, adaptive=adaptive, rep=rep, wrt=wrt)
             seed = rng(ctx.seed, "c08-fd", me, cal, nt, gf, li, rep).randrange(2 ** 31)
             gen = torch.Generator().manual_seed(seed)
             sde = Smooth(nt, cal, d, m, gen)
@@ -314,7 +322,7 @@ def part2_fd(ctx):
                     import warnings
                     with warnings.catch_warnings():
                         warnings.simplefilter("ignore")
-                        r = fd_check(loss_fn, y0, list(sde.parameters()), gen)
+                        r = fd_check(loss_fn, y0, list(sde.parameters()), gen, wrt=wrt)
             except Exception as e:
                 ctx.violation(dict(key, what="exception"), f"{type(e).__name__}: {e}", replay=replay)
                 continue
